@@ -45,29 +45,30 @@ def main():
     out.append('')
     out.append('%d confirmed changes, %d caught by at least one check.' % (nconf, ncaught))
     # behaviour-preserving changes (false-alarm experiment)
-    rp = os.path.join(SEED, 'refactor-results.txt')
-    if os.path.exists(rp):
-        out += ['', '## Behaviour-preserving changes', '',
-                'Ten harmless refactorings of /repo produced by a further sub-agent (797 tests and an independent behavioural digest '
-                'unchanged); every relevant check was run against each (`eval_seeded.py runwt`, quick tier).  A non-zero exit here '
-                'would be an alarm on code where the property holds.', '', '| change | what it does | checks run | alarms |',
-                '|---|---|---|---|']
-        cur, runs = None, {}
-        for l in open(rp):
-            l = l.strip()
-            if l.startswith('== '):
-                cur = l[3:]
-                runs[cur] = []
-            elif l.startswith('"C') and cur:
-                runs[cur].append([l.split('"')[1], None])
-            elif l.startswith('"rc"') and cur and runs[cur]:
-                runs[cur][-1][1] = int(l.split(':')[1].strip(' ,'))
-        for name, rs in runs.items():
-            mp = os.path.join(SEED, 'refactor-' + name, 'meta.json')
-            meta = json.load(open(mp)) if os.path.exists(mp) else {}
-            summary = str(meta.get('summary', ''))[:260].replace('|', '/').replace('\n', ' ')
-            alarms = [c for c, rc in rs if rc != 0]
-            out.append('| refactor-%s | %s | %s | %s |' % (name, summary, ' '.join(c for c, _ in rs), ', '.join(alarms) or 'none'))
+    for tag, title in (('refactor', 'Behaviour-preserving changes'), ('refactor2', 'Behaviour-preserving changes, structural round')):
+      rp = os.path.join(SEED, tag + '-results.txt')
+      if os.path.exists(rp):
+          out += ['', '## ' + title, '',
+                  'Ten harmless refactorings of /repo produced by a further sub-agent (797 tests and an independent behavioural digest '
+                  'unchanged); every relevant check was run against each (`eval_seeded.py runwt`, quick tier).  A non-zero exit here '
+                  'would be an alarm on code where the property holds.', '', '| change | what it does | checks run | alarms |',
+                  '|---|---|---|---|']
+          cur, runs = None, {}
+          for l in open(rp):
+              l = l.strip()
+              if l.startswith('== '):
+                  cur = l[3:]
+                  runs[cur] = []
+              elif l.startswith('"C') and cur:
+                  runs[cur].append([l.split('"')[1], None])
+              elif l.startswith('"rc"') and cur and runs[cur]:
+                  runs[cur][-1][1] = int(l.split(':')[1].strip(' ,'))
+          for name, rs in runs.items():
+              mp = os.path.join(SEED, tag + '-' + name, 'meta.json')
+              meta = json.load(open(mp)) if os.path.exists(mp) else {}
+              summary = str(meta.get('summary', ''))[:260].replace('|', '/').replace('\n', ' ')
+              alarms = [c for c, rc in rs if rc != 0]
+              out.append('| ' + tag + '-%s | %s | %s | %s |' % (name, summary, ' '.join(c for c, _ in rs), ', '.join(alarms) or 'none'))
     open(os.path.join(SEED, 'RESULTS.md'), 'w').write('\n'.join(out) + '\n')
     print('\n'.join(out[-3:]))
 
